@@ -18,13 +18,17 @@ ASSUMPTIONS = [
     "initial balances have total = free (MockExchange::open_order asserts it: only market orders exist, nothing is ever locked)",
     "every asset of a listed instrument has a balance entry in the initial account (the code `expect`s it)",
     "`fees_percent` is used as the code and the example configurations use it: a plain factor of the traded value (0.05 = five percent); the spec's integer fee% is 100 x that number",
-    "prices and quantities are positive whole numbers, balances multiples of 0.01, fee rates whole percents: every amount is exact in 1/100 units",
+    "prices are positive whole numbers, quantities whole numbers of either sign or zero (the amount of an order is |quantity|; a zero quantity needs nothing and is accepted), balances multiples of 0.01, fee rates whole percents: every amount is exact in 1/100 units",
+    "the mock never rests an order: the orders of the account are those of the initial snapshot (open and cancelled), unchanged for ever; a cancel request is never confirmed and changes nothing (how it is answered is not judged)",
+    "after the exchange task has ended the ledger cannot be observed; what is judged is that every client call answers ExchangeOffline(<mocked exchange>), that open / cancel answers echo the request, and that nothing is announced",
+    "the order in which a trade query lists the fills is not judged (bag comparison)",
     "the value of a fresh id is open (any integer id not below every earlier one); the textual reason of a rejection is not judged; the mutual order of the two notifications of one order is not judged",
     "the bought asset is not credited by the simulated exchange - the statement does not ask for it and the check does not demand it",
 ]
 
 ACTIONS = ["OpenRejectKindA", "OpenRejectInstrA", "OpenAcceptBuyA", "OpenRejectFundsBuyA", "OpenAcceptSellA",
-           "OpenRejectFundsSellA", "FetchSnapshotA", "FetchBalancesA", "FetchTradesA"]
+           "OpenRejectFundsSellA", "FetchSnapshotA", "FetchBalancesA", "FetchOrdersOpenA", "FetchTradesA",
+           "CancelUnsupportedA", "Kill", "OfflineA"]
 PENDING = []       # (segment length, signature, description, replay) - registered shortest first
 
 
@@ -68,10 +72,12 @@ def anomaly(line):
         return d
     if line.get("a") == "Reset":
         return None
-    if line.get("out") not in ("ok", "rej", "query", "lost") or (line.get("out") == "lost") != (line.get("drop", 0) > 0):
+    if line.get("out") not in ("ok", "rej", "query", "lost", "offline", "killed", "cancelled") or (line.get("out") == "lost") != (line.get("drop", 0) in (1, 2)):
         return "the request was not answered: %s" % line.get("out")
     if not _is_int(line.get("id")) or not _is_int(line.get("filled")) or not _is_int(line.get("rt")):
         return "the response carries a non-integral id / filled quantity / time: %s %s %s" % (line.get("id"), line.get("filled"), line.get("rt"))
+    if not _is_int(line.get("echo")):
+        return "the line carries no echo flag"
     if line["out"] == "ok" and line["id"] < 0:
         return "the order id of an accepted order is not a number"
     d = _bad_ledger(line.get("res"), with_notif=False)
@@ -94,9 +100,16 @@ def _bal(b):
 def _req(line):
     if line["a"] == "open":
         return "%s %s %d @ %d on %s (client time %d ms)%s" % (line["kind"], line["side"], line["q"], line["p"], line["instr"], line["t"],
-                                                          ", requester stopped waiting before the exchange handled it" if line.get("drop") else "")
+                                                          ", requester stopped waiting before the exchange handled it" if line.get("drop") in (1, 2)
+                                                          else (", in flight when the exchange task ended" if line.get("drop") == 3 else ""))
     if line["a"] == "trades":
         return "fetch_trades(since %d ms) at client time %d ms" % (line["since"], line["t"])
+    if line["a"] == "kill":
+        return "the exchange task ends" + (" while the next request is in flight" if line.get("drop") == 3 else "")
+    if line["a"] == "cancel":
+        return "cancel request on %s at client time %d ms" % (line["instr"], line["t"])
+    if line["a"] == "orders":
+        return "fetch_open_orders at client time %d ms" % line["t"]
     return "%s at client time %d ms" % (line["a"], line["t"])
 
 
@@ -108,7 +121,7 @@ def signature(line, fails):
 
 def scenario_of(seg):
     r = seg[0]
-    init = {"fee": r["fee"], "lat": r["lat"], "bal": r["cfg"]["bal"], "open": r["cfg"]["open"]}
+    init = {"fee": r["fee"], "lat": r["lat"], "bal": r["cfg"]["bal"], "open": r["cfg"]["open"], "up": True}
     keys = ("a", "t", "side", "p", "q", "instr", "kind", "since", "drop")
     return {"init": init, "evs": [{k: l[k] for k in keys} for l in seg[1:]]}
 
